@@ -313,7 +313,10 @@ def c_ts(ts):
 
 def c_rrow(r):
     """[vals, rid, ts] -> JoinCheck.rrow"""
-    return f"({c_zl(r[0])}, {copt(r[1], cn)}, {c_ts(r[2])})"
+    # fully annotated: a shard whose rows all have NULL regions / timespans must still type-check
+    reg = "(@None N)" if r[1] is None else f"(Some {cn(r[1])})"
+    ts = "(@None (Z * Z))" if r[2] is None else c_ts(r[2])
+    return f"(({c_zl(r[0])}, {reg}, {ts}) : rrow)"
 
 
 def flat(r):
@@ -497,10 +500,11 @@ def check_opqueries(ctx, meta, pi, tag, hname, h, ho, d, P, ovx, exp_cache, ocas
         if want and shape == "not-embedded":
             ctx.nontrivial({"p": pi, "h": hname, "g": G["names"], "o": ons["names"], "k": kind, "n": len(want)})
         if ocases is not None:
-            given = clist(clist(f"({cstr(n)}, {cz(v)})" for n, v in zip(ons["names"], r)) for r in obs.get("given", [])) if kind != "mat" else "[]"
+            given = "(" + clist("(" + clist(f"({cstr(n)}, {cz(v)})" for n, v in zip(ons["names"], r)) + " : asg)"
+                                for r in (obs.get("given", []) if kind != "mat" else [])) + " : list asg)"
             ocases.append((f"(ov_{pi}, (s_{tag}, {clist(cstr(n) for n in G['names'])}, {clist(cstr(n) for n in D['names'])}, "
                            f"{clist(cstr(n) for n in ons['names'])}, {cn(0 if kind == 'mat' else 1)}, {given}, "
-                           f"(0%N, {clist(c_zl(r) for r in got)})))", dict(case, observed=got[:30], closure=D["names"])))
+                           f"(0%N, ({clist(c_zl(r) for r in got)} : list (list Z)))))", dict(case, observed=got[:30], closure=D["names"])))
 
 
 def check_population(ctx: Ctx, meta: Meta, pi, payload, d, res, hcases, qcases, defs, model=True, rcases=None, tcases=None, ocases=None):
@@ -546,9 +550,9 @@ def check_population(ctx: Ctx, meta: Meta, pi, payload, d, res, hcases, qcases, 
             ctx.hist("op", f"{o['k']}:{out.split(':')[0]}")
         # --- model cases: the history
         outs = clist(cn(OUT_CODE.get(x, 6)) for x in ho["outcomes"])
-        tabs = clist(f"({cstr(e)}, {clist(c_rrow(r) for r in rows)})" for e, rows in ho["tables"].items())
-        ovs = clist(f"({cstr(e)}, {clist(f'({c_zl(r[0])}, {cn(r[1])})' for r in rows)})" for e, rows in ho["overlaps"].items()
-                    if ":" not in e)
+        tabs = clist(f"({cstr(e)}, ({clist(c_rrow(r) for r in rows)} : list rrow))" for e, rows in ho["tables"].items())
+        ovs = clist(f"({cstr(e)}, ({clist(f'({c_zl(r[0])}, {cn(r[1])})' for r in rows)} : list (list Z * N)))"
+                    for e, rows in ho["overlaps"].items() if ":" not in e)
         defs.append(f"Definition h_{tag} : list op := {clist(c_op(meta, o) for o in h['ops'])}.\n"
                     f"Definition s_{tag} : st := Eval vm_compute in run_hist jc_current env_{pi} h_{tag} st0.")
         hcases.append((f"(env_{pi}, (h_{tag}, {outs}, {tabs}, {ovs}))",
@@ -566,9 +570,9 @@ def check_population(ctx: Ctx, meta: Meta, pi, payload, d, res, hcases, qcases, 
                 # model cases: quick tier on the first two histories of a population (the oracle above looks at all of them)
                 if rcases is not None and e in meta.el and meta.el[e]["has_own_table"] and (hi < 2 or not ctx.quick):
                     if "rows" in rq:
-                        robs = f"(0%N, {clist(c_rrow(r) for r in rq['rows'])})"
+                        robs = f"(0%N, ({clist(c_rrow(r) for r in rq['rows'])} : list rrow))"
                     else:
-                        robs = f"({cn({'crash': 1, 'invalid': 2}.get(rq.get('err'), 9))}, [])"
+                        robs = f"({cn({'crash': 1, 'invalid': 2}.get(rq.get('err'), 9))}, (@nil rrow))"
                     rcases.append((f"(ov_{pi}, (s_{tag}, {cstr(e)}, {robs}))",
                                    {"population": pi, "history": hname, "element": e, "ops": h["ops"], "regions": d["regions"],
                                     "returned": rq.get("rows", rq.get("err"))}))
@@ -651,10 +655,10 @@ def check_population(ctx: Ctx, meta: Meta, pi, payload, d, res, hcases, qcases, 
                 ctx.hist("spatial_query", "nonempty" if want else "empty")
             # model case on the `new` interface
             if "new" in q:
-                obs = f"(0%N, {clist(c_zl(r) for r in norm(q['new']))})"
+                obs = f"(0%N, ({clist(c_zl(r) for r in norm(q['new']))} : list (list Z)))"
             else:
                 code = {"crash": 1, "invalid": 2}.get(q.get("new_err"), 9)
-                obs = f"({cn(code)}, [])"
+                obs = f"({cn(code)}, (@nil (list Z)))"
             qcases.append((f"(ov_{pi}, (s_{tag}, {clist(cstr(n) for n in names)}, {obs}))", dict(case, observed=q.get("new", q.get("new_err")))))
         if d.get("opq") and hi < len(d["opq"]) and d["opq"][hi]:
             check_opqueries(ctx, meta, pi, tag, hname, h, ho, dict(d, opq=d["opq"][hi]), P, ovx, exp_cache, ocases)
